@@ -6,7 +6,7 @@ use syn::{
     Field, Generics, Result, Token, Type, WherePredicate,
 };
 
-use crate::syn_utils::GenericParamSet;
+use crate::syn_utils::{ref_target, GenericParamSet};
 
 #[derive(Clone, ToTokens, Debug)]
 pub enum Bound {
@@ -109,7 +109,7 @@ impl WhereClauseBuilder {
     pub fn build(self, f: impl Fn(&Type) -> TokenStream) -> TokenStream {
         let mut ws = Vec::new();
         for ty in &self.types {
-            ws.push(f(ty));
+            ws.push(f(&ref_target(ty)));
         }
         for p in self.preds {
             ws.push(quote!(#p));
